@@ -17,7 +17,7 @@ import (
 var ghostBuiltins = map[string]bool{
 	"requires": true, "domain": true, "ensures": true, "ensuresGoal": true, "ensuresTrusted": true, "assert": true, "assume": true, "imp": true, "iff": true, "old": true,
 	"forall": true, "exists": true, "forallIn": true, "existsIn": true, "forallStr": true, "modifiesTail": true, "modifiesElems": true, "modifiesPtr": true, "modifiesAll": true, "modifiesMap": true,
-	"freshSlice": true, "sameBase": true, "sameArray": true, "suffixOf": true, "viewOf": true, "offsetIn": true, "disjointFromTail": true, "bytesEq": true, "strBytesEq": true, "allocated": true, "sameOrDisjoint": true, "unchangedElems": true, "identical": true, "arg": true,
+	"freshSlice": true, "sameBase": true, "sameArray": true, "suffixOf": true, "viewOf": true, "offsetIn": true, "disjointFromTail": true, "bytesEq": true, "strBytesEq": true, "allocated": true, "sameOrDisjoint": true, "unchangedElems": true, "identical": true, "arg": true, "localBool": true,
 	"covers": true,
 }
 
@@ -720,6 +720,28 @@ func (c *VC) intrinsic(st *State, fn *types.Func, call *ast.CallExpr) ([]*Term, 
 				}
 			}
 			return []*Term{r, n}, true
+		}
+	case "math.Signbit":
+		// the sign bit of the IEEE bit pattern; a float32 widened to float64 keeps its sign
+		{
+			arg := ast.Unparen(call.Args[0])
+			w := 64
+			inner := arg
+			if conv, ok := arg.(*ast.CallExpr); ok && len(conv.Args) == 1 {
+				if tv, ok := c.cur().view.typeOf(conv.Fun); ok && tv.IsType() {
+					if fw, isF := isFloat(c.typeOf(conv.Args[0]).Underlying()); isF {
+						inner, w = conv.Args[0], fw
+					}
+				}
+			} else if fw, isF := isFloat(c.typeOf(arg).Underlying()); isF {
+				w = fw
+			}
+			x := c.eval(st, inner)
+			ut := types.Typ[types.Uint64]
+			if w == 32 {
+				ut = types.Typ[types.Uint32]
+			}
+			return []*Term{c.cmp(token.GEQ, x, c.numLit(new(big.Int).Lsh(big.NewInt(1), uint(w-1)), ut), ut)}, true
 		}
 	case "strconv.ParseUint":
 		// uninterpreted result pair plus the documented facts for a constant base of 16: a successful
